@@ -254,7 +254,7 @@ func r072(c *Ctx, r *R) {
 	}
 	nTrue, nTrust := 0, 0
 	for _, lf := range leaves {
-		gs := guardsOf(lf.Block)
+		gs := lf.Guards()
 		if k, isK := constOf(lf.Val); isK {
 			if k == nil || !constant.BoolVal(k) {
 				r.OK("authF:false", lf.Pos, "path returns false (deny)")
@@ -472,7 +472,7 @@ func r075(c *Ctx, r *R) {
 	if f != nil {
 		pidIdx := 2 // (css, ctx, pid)
 		for _, lf := range returnLeaves(f, 0) {
-			gs := guardsOf(lf.Block)
+			gs := lf.Guards()
 			if k, isK := constOf(lf.Val); isK {
 				if k == nil || !constant.BoolVal(k) {
 					r.OK("crdt.IsTrustedPeer:false", lf.Pos, "returns false")
